@@ -262,6 +262,13 @@ func glyphSet(n int) []font.GID {
 	if n == 0 {
 		gs[3] = 0
 	}
+	// gids around the lengths of the fixed arrays a font may fall back to (predefined CFF charsets
+	// of 87 / 166 / 229 entries, 256-entry encodings), when the font has that many glyphs
+	for _, g := range []int{86, 87, 165, 166, 228, 229, 255, 256} {
+		if g < n-1 {
+			gs = append(gs, font.GID(g))
+		}
+	}
 	return gs
 }
 
@@ -380,6 +387,11 @@ func queryFace(face *font.Face, ld *ot.Loader, r *runner) {
 	r.do("GlyphName", func() {
 		for _, g := range glyphs {
 			sink += len(ft.GlyphName(g))
+		}
+		if n <= 512 { // names are cheap: every glyph of a small font
+			for g := 0; g < n; g++ {
+				sink += len(ft.GlyphName(font.GID(g)))
+			}
 		}
 	})
 	r.do("Describe", func() {
